@@ -29,6 +29,7 @@ func init() {
 		func(t *vcTrial) { vcRunC14Storm(t, 240000, 8) },
 		func(t *vcTrial) { vcRunC14(t, vc14Cfg{Target: "accept", Dials: 64, TimeoutUs: 1000000, FaultPM: 300}) },
 		func(t *vcTrial) { vcRunC14(t, vc14Cfg{Target: "unix", Dials: 16, TimeoutUs: 1000000, FaultPM: 700}) },
+		vcRunC14PersistentFault,
 	}
 }
 
@@ -811,4 +812,81 @@ func vcRunC14Multi(t *vcTrial) {
 	t.Stat("dials", 1)
 	t.Nontrivial = true
 	t.Sig = fmt.Sprintf("multi|%v|%s", roles, want)
+}
+
+// vcRunC14PersistentFault: connect(2) keeps failing the same way for as long as the dial tries
+// (EADDRNOTAVAIL: no local port left towards the target; ENETUNREACH; EACCES ...). Whatever
+// retries the dial path has, the call must come back with an error within its timeout plus slack.
+func vcRunC14PersistentFault(t *vcTrial) {
+	r := t.R
+	t.P("variant", "connect fails persistently")
+	ln, err := net.Listen("tcp", "127.0.0.1:0")
+	if err != nil {
+		t.Inconclusive("listen: %v", err)
+		return
+	}
+	defer ln.Close()
+	for _, errno := range []syscall.Errno{syscall.EADDRNOTAVAIL, syscall.ENETUNREACH, syscall.ECONNREFUSED, syscall.EADDRNOTAVAIL} {
+		if t.Violated() {
+			return
+		}
+		site := []int{vfltConnect, vfltConnect, vfltSocket}[r.intn(3)]
+		if errno != syscall.EADDRNOTAVAIL {
+			site = vfltConnect
+		}
+		fp := &vcFaultPlan{Rules: []*vcFaultRule{{Site: site, Errno: errno, FD: -1}}}
+		if site == vfltSocket {
+			fp.Rules[0].Errno = syscall.EMFILE
+		}
+		before := vcOpenFDs()
+		vcSetFaults(fp)
+		timeout := 300 * time.Millisecond
+		type res struct {
+			c   Connection
+			err error
+		}
+		ch := make(chan res, 1)
+		t0 := time.Now()
+		go func() {
+			c, err := DialConnection("tcp", ln.Addr().String(), timeout)
+			ch <- res{c, err}
+		}()
+		select {
+		case x := <-ch:
+			vcSetFaults(nil)
+			if x.err == nil || !vcIsNilConn(x.c) {
+				t.Violate("C14", "spurious_success", "a dial whose every %s fails with %v returned (%v, %v)", vcFaultSiteNames[site], fp.Rules[0].Errno, x.c, x.err)
+				if !vcIsNilConn(x.c) {
+					x.c.Close()
+				}
+				return
+			}
+			t.Stat("persistent_fault_dials", 1)
+			t.Stat("persistent_fault_attempts", int(fp.Fired()))
+		case <-time.After(timeout + 10*time.Second):
+			calls := fp.Fired()
+			time.Sleep(200 * time.Millisecond)
+			calls2 := fp.Fired()
+			vcSetFaults(nil)
+			if vcRunnerProgress(5, 5*time.Second) {
+				t.Violate("C14", "dial_stuck", "a dial (timeout %v) whose every %s fails with %v has not returned %v after the call: the failing call was made %d times so far (%d more in the last 200 ms) - the dial retries without a bound and without looking at its timeout", timeout, vcFaultSiteNames[site], fp.Rules[0].Errno, time.Since(t0).Round(time.Millisecond), calls, calls2-calls)
+			} else {
+				t.Inconclusive("dial did not return, canary without progress")
+			}
+			return
+		}
+		var diff []string
+		for dl := time.Now().Add(3 * time.Second); ; {
+			diff = vcFDDiff(before, vcOpenFDs())
+			if len(diff) == 0 || time.Now().After(dl) {
+				break
+			}
+			time.Sleep(2 * time.Millisecond)
+		}
+		if len(diff) > 0 {
+			t.Violate("C14", "descriptor_leak", "a dial whose every %s fails with %v left %d descriptor(s) behind: %v", vcFaultSiteNames[site], fp.Rules[0].Errno, len(diff), diff)
+			return
+		}
+	}
+	t.Nontrivial, t.Sig = true, "persistent-fault"
 }
